@@ -90,7 +90,7 @@ typedef struct vcall_env {
 	uint64_t exp_rsp;
 	uint32_t mxcsr_in, mxcsr_out;
 	uint16_t cw_in, cw_out;
-	uint32_t pad0;
+	uint32_t skew;      /* stack position class (0..3) */
 	uint64_t canary[32];
 	uint8_t *stack_cap;
 	uint64_t k[8];
